@@ -181,8 +181,8 @@ func (r *Recorder) Add(kind string, par int, label string, ins []any, outs []any
 	r.events = append(r.events, ev)
 }
 
-func (r *Recorder) Install() { helper.VerifStageHook = r.hook }
-func Uninstall()             { helper.VerifStageHook = nil }
+func (r *Recorder) Install() { helper.SetVerifStageHook(r.hook) }
+func Uninstall()             { helper.SetVerifStageHook(nil) }
 
 // Wiring is the recorded network.
 type Wiring struct {
